@@ -6,6 +6,7 @@ import (
 	"errors"
 	"fmt"
 	"reflect"
+	"strings"
 	"testing"
 	"time"
 
@@ -496,4 +497,76 @@ func TestCorpusShapes(t *testing.T) {
 			t.Fatalf("%s: %s", tc.name, d)
 		}
 	}
+}
+
+// ---------------------------------------------------------------------------
+// native coverage-guided fuzzing of the decoder (thorough tier): arbitrary YAML text, the
+// same reference resolver as oracle wherever it defines the document's meaning.
+
+func checkText(data []byte) error {
+	if len(data) > 1<<16 {
+		return nil
+	}
+	var node yaml.Node
+	if err := yaml.Unmarshal(data, &node); err != nil || node.Kind == 0 {
+		return nil
+	}
+	if sz, _ := doc.ExpandedSize(&node, budget); sz > budget {
+		return nil
+	}
+	res, rerr := doc.Resolve(&node, budget)
+	got, derr, dur := safeDecode(&node)
+	if derr != nil && strings.HasPrefix(derr.Error(), "PANIC") {
+		return derr
+	}
+	if dur > 10*time.Second {
+		return fmt.Errorf("DecodeYAML took %v", dur)
+	}
+	switch {
+	case errors.Is(rerr, doc.ErrValueCycle):
+		if derr == nil {
+			return fmt.Errorf("value cycle but DecodeYAML succeeded")
+		}
+	case rerr != nil:
+		// outside the reference model (null / float / collection keys, scalar merge sources, ...): totality only
+	default:
+		if derr != nil {
+			return fmt.Errorf("DecodeYAML failed where the merge-key specification defines a result: %v", derr)
+		}
+		if d := gt.Diff(res.Val, canon.Value(got), gt.Opt{}); d != "" {
+			return fmt.Errorf("DecodeYAML differs from the merge-key specification: %s", d)
+		}
+		if s := identities(got, map[*ordered.MapSA]string{}, map[uintptr]string{}, "$"); s != "" {
+			return fmt.Errorf("copies share structure: %s", s)
+		}
+	}
+	return nil
+}
+
+var fuzzSeeds = []string{
+	"base: &b {a: 1, b: 2}\nm: {<<: *b, a: 9}\n",
+	"x: &x {a: 1}\ny: &y {a: 2, b: 3}\nm: {<<: [*x, *y], c: 4}\n",
+	"x: &x {a: 1}\ny: &y {<<: *x, b: 2}\nm: {c: 3, <<: *y}\n",
+	"k: &k name\nm: {*k : v, <<: {name: w, other: 1}}\n",
+	"a: &a\n  b: *a\n",
+	"a: &a [1, *a]\n",
+	"a: &a\n  x: 1\n  <<: *a\n",
+	"s: &s [{a: 1}, *s]\nm: {<<: *s}\n",
+	"b: &b {k: {<<: *b}}\n",
+	"a: &a {b: c}\nd: {da: *a, db: *a, <<: [*a, [*a]]}\n",
+	"0x10: a\n16: b\ntrue: c\n\"true\": d\n",
+	"? &k key\n: &v value\n*k : *v\n",
+	"m: {<<: {a: 1}, <<: {a: 2, b: 3}}\n",
+	"- &a {x: 1}\n- <<: *a\n  y: 2\n- [*a, *a]\n",
+}
+
+func FuzzDecodeYAML(f *testing.F) {
+	for _, s := range fuzzSeeds {
+		f.Add([]byte(s))
+	}
+	f.Fuzz(func(t *testing.T, data []byte) {
+		if err := checkText(data); err != nil {
+			t.Fatalf("%v\n---- input ----\n%q", err, data)
+		}
+	})
 }
